@@ -192,12 +192,7 @@ def registered_callbacks(ctx, cls):
                 for e in p.calls():
                     if q.call_name(e) != "add_done_callback" or not e.d["args"]:
                         continue
-                    cb = e.d["args"][0]
-                    if isinstance(cb, tuple) and cb[0] == "new":
-                        for cc in p.calls():
-                            if cc.d["func"] == ("class", cb[1]) and it.site(cc.node) == cb[2] and cc.d["args"]:
-                                cb = cc.d["args"][0]
-                                break
+                    cb = unwrap(ctx, p, e.d["args"][0], it)
                     if isinstance(cb, tuple) and cb[0] == "partial":
                         cb = cb[1]
                     if isinstance(cb, tuple) and cb[0] == "attr" and cb[1] == SELF:
@@ -245,3 +240,61 @@ def record_roles(ctx, cls):
     if best is None:
         raise AnalysisError("%s: job record roles (future / fn / args / kwargs) not identified" % cls.name)
     return best
+
+
+def is_wrapper_class(ci):
+    """a callable object wrapping one callable given to its constructor (WeakCallback-like)"""
+    if not isinstance(ci, ClassInfo) or "__call__" not in ci.methods:
+        return False
+    init = ci.methods.get("__init__")
+    return init is not None and len(init.params) == 2 and not init.vararg and not init.kwarg
+
+
+def wrapper_field(ctx, ci):
+    """the field of a wrapper class that keeps the wrapped callable"""
+    init = ci.methods["__init__"]
+    ps, it = ctx.paths(init, ci, depth=0)
+    out = set()
+    for p in ps:
+        for e in p.evs("store"):
+            if q.self_field(e.d["target"]) and e.d["value"] == ("param", init.params[1]):
+                out.add(e.d["target"][2])
+    if len(out) != 1:
+        raise AnalysisError("%s: the field keeping the wrapped callable is not unique (%s)" % (ci.name, sorted(out)))
+    return out.pop()
+
+
+def inline_wrapper_ctor(callee, ev, path):
+    """inlining policy: only constructors of callback wrapper objects"""
+    return callee.name == "__init__" and callee.owner is not None and is_wrapper_class(callee.owner)
+
+
+def unwrap(ctx, p, cb, it=None):
+    """the callable behind a wrapper object built on this path (constructor inlined or not)"""
+    for _ in range(4):
+        if not (isinstance(cb, tuple) and cb and cb[0] == "new"):
+            return cb
+        ci = ctx.prog.classes.get(cb[1])
+        if not is_wrapper_class(ci):
+            return cb
+        f = wrapper_field(ctx, ci)
+        v = p.heap.get(("attr", cb, f))
+        if v is None:
+            for c in p.calls():
+                if c.d["func"] == ("class", cb[1]) and c.d.get("result", None) == cb or (c.d["func"] == ("class", cb[1]) and it is not None and it.site(c.node) == cb[2]):
+                    b = bound(c, ctx.prog)
+                    v = b.get(ci.methods["__init__"].params[1])
+                    break
+        if v is None:
+            return cb
+        cb = v
+    return cb
+
+
+def input_callback(ctx, cls):
+    """the method of cls that its constructor registers as done-callback on the input futures"""
+    cbs = registered_callbacks(ctx, cls)
+    ms = [m for m, r in cbs.values()]
+    if len(ms) != 1:
+        raise AnalysisError("%s: expected exactly one method registered as done-callback, found %s" % (cls.name, sorted(m.name for m in ms)))
+    return ms[0]
